@@ -12,7 +12,7 @@ pub fn def() -> PropDef {
         nontrivial,
         functional: true,
         post: super::no_post,
-        rule: "source strings up to 4 KiB: random characters (ASCII-biased with multi-byte code points, quotes, backslashes, line breaks), random sequences of CEL tokens, grammar-generated valid expressions (the typed, untyped and reference generators, nesting to 32) and single-token insert / delete / replace / truncate mutations of valid ones; compiled by Program::compile; compared with the model: accept or reject and, on accept, the tree; predicate on the implementation: no panic, no hang (a watchdog reports a case running longer than 20 s), a rejection carries at least one error, every error renders to non-empty text, 1 <= line <= number of lines and 1 <= column <= length of that line in characters + 1, and an accepted text is also one complete expression for the grammar model; non-trivial = the text contains at least two tokens; distinct = distinct text",
+        rule: "source strings up to 4 KiB: random characters (ASCII-biased with multi-byte code points, quotes, backslashes, line breaks), random sequences of CEL tokens, grammar-generated valid expressions (the typed, untyped and reference generators, nesting to 32) and single-token insert / delete / replace / truncate mutations of valid ones, and erroneous lines padded to every length up to 300 characters (and around 1 KiB) with 1- to 4-byte characters; compiled by Program::compile; compared with the model: accept or reject and, on accept, the tree; predicate on the implementation: no panic, no hang (a watchdog reports a case running longer than 20 s), a rejection carries at least one error, every error renders to non-empty text, 1 <= line <= number of lines and 1 <= column <= length of that line in characters + 1, and an accepted text is also one complete expression for the grammar model; non-trivial = the text contains at least two tokens; distinct = distinct text",
         exhaustive_note: "random sample plus a fixed catalogue of malformed texts",
     }
 }
@@ -117,6 +117,24 @@ pub fn generate(tier: Tier, rng: &mut Rng) -> Vec<Case> {
         "[\"éééééééééé\"].all(1,\n2)", "\"é\" + has(a)", "x.map(\n  1, 2)", "\"ééé\" +", "é é é", "\"\u{1F431}\" + + 1", "'a\nb'", "1 +\n\n+", "a\r\n+\r\n", "\u{feff}a",
     ] {
         push(src.to_string(), "catalogue");
+    }
+    // long lines: the erroneous line is padded with 1-, 2-, 3- and 4-byte characters so that every
+    // byte offset up to a few hundred (and around 1 KiB) is, in some case, the middle of a character
+    for (pad, max) in [("a", 140usize), ("é", 300), ("✌", 140), ("\u{1F431}", 140)] {
+        let ns: Vec<usize> = (0..=max).chain(if tier == Tier::Thorough { 300..1100 } else { 1020..1030 }).collect();
+        for n in ns {
+            for shift in ["", "b"] {
+                let body = format!("{shift}{}", pad.repeat(n));
+                if body.len() > 3500 {
+                    continue;
+                }
+                push(format!("'{body}' +"), "long-line");
+                if n % 3 == 0 {
+                    push(format!("['{body}'].all(1, true)"), "long-line");
+                    push(format!("1 +\n'{body}' ? :\n2"), "long-line");
+                }
+            }
+        }
     }
     let n = match tier {
         Tier::Quick => 5000,
